@@ -1589,7 +1589,12 @@ def enc_nlri_units(tier):
         def vpn(ctx, depth, ap, v6=v6, afi=afi, v=v):
             g = Given()
             tag = stack_class(ctx, depth, Action.ANNOUNCE)
-            x = IPVPN.from_cidr(g.cidr(ctx, v6), AFI.from_int(afi), SAFI.mpls_vpn, g.path(ctx, ap), g.labels(ctx, depth), g.rd(ctx))
+            try:
+                x = IPVPN.from_cidr(g.cidr(ctx, v6), AFI.from_int(afi), SAFI.mpls_vpn, g.path(ctx, ap), g.labels(ctx, depth), g.rd(ctx))
+            except ValueError:
+                # three labels + RD + more than 119 prefix bits do not fit the one-octet NLRI length (RFC 4760 5): the factory refuses
+                ctx.note('class', 'factory-refused')
+                return ('factory-refused',)
             return enc_nlri(ctx, '%s-mpls-vpn%s' % (v, tag), x, afi, 128, g, addpath=ap)
         for depth in ((1, 2, 3) if th else (1, 2)):
             for ap in (False, True):
@@ -1829,7 +1834,7 @@ def enc_attr_units(tier):
     from exabgp.bgp.message.update.attribute.sr.srgb import SrGb
     from exabgp.bgp.message.update.attribute.tunnel_encap import TunnelEncap
     from exabgp.bgp.message.update.attribute.tunnel_encap import sr_policy as _sp
-    from exabgp.bgp.message.update.attribute.tunnel_encap.sr_policy.segment_list import WeightSubSubTLV, SegmentTypeA, SegmentTypeB
+    from exabgp.bgp.message.update.attribute.tunnel_encap.sr_policy.segment_list import WeightSubSubTLV, SegmentTypeA
 
     def simple(code, kind_field, factory, lo, hi):
         def f(ctx):
@@ -2037,7 +2042,6 @@ def enc_attr_units(tier):
         from exabgp.bgp.message.update.attribute.bgpls.prefix.prefixmetric import PrefixMetric
         from exabgp.bgp.message.update.attribute.bgpls.prefix.igptags import IgpTags
         from exabgp.bgp.message.update.attribute.bgpls.node.sralgo import SrAlgorithm
-        from exabgp.bgp.message.update.attribute.bgpls.node.isisarea import IsisArea
         sid = ('fc00::3', '2001:db8:ffff:ffff:ffff:ffff:ffff:fffe')
         flags0 = {'B': 0, 'S': 0, 'P': 0}
 
